@@ -265,14 +265,15 @@ theorem connect_decision (cfg : Cfg) (s : State) (u : Nat) (hd : Hdr) (nm : List
 /-! ### The Spec's C06 clauses on every run of the model -/
 
 /-- **The Spec's connect-decision and CLIENT_INFO clauses hold on every run of the model.**  For every configuration
-meeting the side conditions (`CfgOK`, automatic fuel, `OrdPerm`: the iteration order of a Python `set` visits every
+meeting the side conditions (`CfgOK`, automatic fuel, CLIENT_CLOSED is not the ALL_MESSAGE_TYPES sentinel;
+`OrdPerm`: the iteration order of a Python `set` visits every
 element once — insertion order and its reverse, which the driver uses, are instances) and every history whose frames
 are read from connections (never from the manager's own table entry, uid 0 — true of every generated history), the
 verdict `Spec.runSpec` computes from the history and the model's own events has no C06 entry. -/
 theorem spec_connect_clause_passes_on_model (cfg : Cfg) (ok : CfgOK cfg) (hfuel : cfg.fuel = 0) (hperm : OrdPerm cfg)
-    (rs : List Round) (hwf : RoundsWF rs) :
+    (hmt : cfg.mtClosed ≠ cfg.allTypes) (rs : List Round) (hwf : RoundsWF rs) :
     (Spec.runSpec cfg rs (Pyrtma.Drv.Manager.modelRun cfg rs).1 none).errs.filter (·.1 == "C06") = [] :=
-  spec_passes_on_model ok hfuel hperm rs hwf "C06" (by simp [proven])
+  spec_passes_on_model ok hfuel hperm hmt rs hwf "C06" (by simp [proven]) (fun h => absurd h (by decide))
 
 /-! ### Non-vacuity -/
 /-- two clients ask for id 10: the second is refused and closed, the first keeps it -/
